@@ -6,8 +6,8 @@ SESSION = "client::context::Session"
 CONNECTION = "client::context::Connection"
 
 VECDEQUE_PUSH = {"push_back": "back", "push_front": "front", "insert": "insert", "extend": "extend", "append": "append"}
-VECDEQUE_REMOVE = {"remove": "keyed", "pop_front": "front", "pop_back": "back", "swap_remove_back": "keyed",
-                   "swap_remove_front": "keyed", "retain": "retain", "retain_mut": "retain", "drain": "drain",
+VECDEQUE_REMOVE = {"remove": "keyed", "pop_front": "front", "pop_back": "back", "swap_remove_back": "swap",
+                   "swap_remove_front": "swap", "retain": "retain", "retain_mut": "retain", "drain": "drain",
                    "truncate": "truncate", "split_off": "split"}
 VECDEQUE_CLEAR = {"clear"}
 VECDEQUE_READ = {"iter", "iter_mut", "get", "get_mut", "front", "back", "len", "is_empty", "contains", "index", "index_mut",
